@@ -42,4 +42,6 @@ package bgzf
 //@   at stmt "b := c.buf.Bytes()" ghost gb = ret
 //@   at stmt "b := c.buf.Bytes()" assume len(ret) >= 18 && ret[0] == 31 && ret[1] == 139 && ret[2] == 8 && ret[3] < 32 &&
 //@       (ret[8] == 0 || ret[8] == 2 || ret[8] == 4) && ret[12] == 66 && ret[13] == 67 && ret[14] == 2 && ret[15] == 0
-//@   ensures[C08] @bsize c.err == nil ==> (len(gb) - 1 < 65536 && int(gb[16]) + 256 * int(gb[17]) == len(gb) - 1)
+//@   ensures[C08] @fits c.err == nil ==> (len(gb) >= 18 && len(gb) - 1 < 65536)
+//@   ensures[C08] @lo c.err == nil ==> int(gb[16]) == mod(len(gb) - 1, 256)
+//@   ensures[C08] @hi c.err == nil ==> int(gb[17]) == div(len(gb) - 1, 256)
